@@ -20,7 +20,7 @@ NEEDS_SIMMPI = True
 RULE = ("seeded set-ups: n_v 5-40, v-spline degree 1-5 (3 = stock uniform-cubic), small (r,theta,z) grids, random "
         "distributions (also: profiles in the spline space, the equilibrium itself, linear combinations), process grids "
         "(1,1),(2,1),(1,2),(2,2),(3,1),(3,2) so that some rank owns a block not starting at radial index 0, rho grids of "
-        "dtype float and complex; getRho and getPerturbedRho compared on every (r,theta,z) with the exact integral of the "
+        "dtype float and complex, two DensityFinder objects built on the same spline-space object (getRho through the first, getPerturbedRho through the second); both compared on every (r,theta,z) with the exact integral of the "
         "interpolant.  A class is (v-space path/degree, which of r|z split, rho dtype, operator, data kind).")
 ASSUMPTIONS = ["simulated MPI (self-tested)", "reference quadrature functional = Gauss-Legendre of the reference basis contracted with the inverse collocation matrix",
                "tolerance 200*eps*(kappa+max|v|/min dv)*|f|*(vMax-vMin)"]
@@ -71,12 +71,15 @@ def run_case(case):
         comm = MPI.COMM_WORLD
         sim = simrun.Sim(comm, c, nprocs, layout='v_parallel', save=False)
         rho = sim.rho if use_complex else Grid(sim.eta[:3], sim.bs[:3], sim.remapperRho, 'v_parallel_2d', comm, dtype=float)
+        # two operators on the SAME spline space object (a history: the second construction must not be
+        # affected by the first, nor corrupt it)
+        dens_first = ps.DensityFinder(6, sim.bs[3], sim.eta, c)
         dens = ps.DensityFinder(6, sim.bs[3], sim.eta, c)
         out = {}
         for name, F in fields.items():
             sim.scatter(sim.f, F)
             rho.getAllData()[:] = np.nan
-            dens.getRho(sim.f, rho)
+            dens_first.getRho(sim.f, rho)
             a = sim.block(rho)
             rho.getAllData()[:] = np.nan
             dens.getPerturbedRho(sim.f, rho)
